@@ -47,7 +47,8 @@ Definition mem_odata (v : option data) (l : list (option data)) := existsb (eqb_
 (** 1 trace_safe; 2 no leftovers; 3 the published versions have the observed
     lengths; 4 (byte mode) they are the observed contents; 5 (byte mode) every
     state visible at any instant or after a crash at any prefix, enumerated by
-    the model, is one of them. *)
+    the model, is one of them; 6 once dst names a file it names one after
+    every later operation (never renamed away, unlinked or otherwise absent). *)
 Definition checks (c : case) : list bool :=
   match c with
   | CTrace dst keep ents t bm ord lens vers =>
@@ -64,22 +65,24 @@ Definition checks (c : case) : list bool :=
            if ord then eqb_list eqb_odata av vers
            else forallb (fun v => mem_odata v vers) av && eqb_odata (hd None av) (hd None vers)
          else true);
-        (if bm then forallb (fun v => mem_odata v av) (visible_states s t dst) else true) ]
+        (if bm then forallb (fun v => mem_odata v av) (visible_states s t dst) else true);
+        dst_stays dst s t ]
   end.
 
 Definition case_ok (c : case) : bool := forallb (fun b => b) (checks c).
 
 Definition mismatches := Base.Run.mismatches case_ok.
 
-(** For replay files: the five verdicts, the index of the first unsafe
-    operation, the names left over, and (byte mode) the visible states that
-    are not a published version. *)
+(** For replay files: the six verdicts, the index of the first unsafe
+    operation, the index of the first operation after which dst is gone, the
+    names left over, and (byte mode) the visible states that are not a
+    published version. *)
 Definition explain (c : case) :=
   match c with
   | CTrace dst keep ents t bm ord lens vers =>
       let s := boot ents in
       let av := all_versions s t dst in
-      (checks c, first_unsafe dst s t 0,
+      (checks c, first_unsafe dst s t 0, first_absent dst s t 0,
        filter (fun p => match aget (dir_cur (run s t)) p with Some _ => negb (existsb (N.eqb p) (dst :: keep)) | None => false end)
               (created s t),
        map (option_map (byte_len bm)) av,
